@@ -209,9 +209,8 @@ def doRun (st : IO.Ref (Std.HashMap String Nat)) (b : Builder) (args : List Stri
       | .ok evs =>
         bump st (evs.flatMap evKeys)
         for e in evs do out.putStrLn e.toLine
-        if rf == 0 then
-          let spec := (events cd m o).map Ev.toLine
-          out.putStrLn s!"spec-agree {decide (spec = evs.map Ev.toLine)}"
+        let spec := ((if rf == 0 then events cd m o else eventsBF cd m o)).map Ev.toLine
+        out.putStrLn s!"spec-agree {decide (spec = evs.map Ev.toLine)}"
       | .error e => out.putStrLn s!"read-error {repr e}"
     | _, _, _, _, _, _ => out.putStrLn "bad-op"
   | _ => out.putStrLn "bad-op"
